@@ -201,6 +201,55 @@ def build_harness(race=False, timeout=900):
         return rc == 0, so + se
 
 
+def build_skeletons(timeout=600):
+    """Translator: /repo working tree -> coq/Gen/Skeleton_*.v, compiled.  Returns (ok, log)."""
+    with Lock("skel.lock"):
+        tdir = os.path.join(VERIF, "translator")
+        tbin = os.path.join(BUILD, "translator")
+        rc, so, se = run(["go", "build", "-o", tbin, "."], cwd=tdir, env=GOENV, timeout=timeout)
+        if rc != 0:
+            return False, "translator build failed: " + so + se
+        gen = os.path.join(COQ, "Gen")
+        os.makedirs(gen, exist_ok=True)
+        for d in (gen, os.path.join(COQ, "Oblig")):
+            for fn in os.listdir(d):
+                if fn.endswith((".vo", ".vok", ".vos", ".glob")) or (d == gen and fn.endswith(".v")):
+                    os.remove(os.path.join(d, fn))
+        rc, so, se = run([tbin, REPO, gen], timeout=timeout)
+        log_ = so + se
+        if rc != 0:
+            return False, "translator failed: " + log_
+        for fn in sorted(os.listdir(gen)):
+            if fn.endswith(".v"):
+                rc, so, se = run("coqc -Q . NR Gen/%s" % fn, cwd=COQ, timeout=timeout)
+                if rc != 0:
+                    return False, "Gen/%s does not compile: %s" % (fn, (so + se)[-1500:])
+        return True, log_
+
+
+def run_oblig(name, timeout=600):
+    """Compile coq/Oblig/<name>.v against the freshly generated skeletons.
+    Returns dict(ok, lemmas, failed_lemma, log, evals)."""
+    src = os.path.join(COQ, "Oblig", name + ".v")
+    text = strip_coq_comments(open(src).read())
+    lemmas = re.findall(r"\bLemma\s+([A-Za-z0-9_']+)", text)
+    with Lock("skel.lock"):
+        rc, so, se = run("coqc -Q . NR Oblig/%s.v" % name, cwd=COQ, timeout=timeout)
+    failed = None
+    if rc != 0:
+        m = re.search(r"line (\d+), characters", se + so)
+        if m:
+            ln = int(m.group(1))
+            upto = "\n".join(open(src).read().splitlines()[:ln])
+            prev = re.findall(r"\bLemma\s+([A-Za-z0-9_']+)", strip_coq_comments(upto))
+            failed = prev[-1] if prev else None
+    evals = {}
+    flat = " ".join(so.split())
+    for m in re.finditer(r'= \("(\w+)", (.*?)\) : ', flat):
+        evals[m.group(1)] = m.group(2)
+    return dict(ok=(rc == 0), lemmas=lemmas, failed_lemma=failed, log=(so + se)[-2500:], evals=evals)
+
+
 def prop_obligations(pid):
     """Compile coq/Props/<pid>.v on its own and collect theorem names and
     Print Assumptions output.  Returns dict(ok, theorems, assumptions, log)."""
